@@ -104,7 +104,7 @@ def ref_cmpi(p: int, w: int, a: int, b: int) -> bool:
 class Impl:
     """adapter around the real interpreter"""
 
-    def __init__(self) -> None:
+    def __init__(self, index_bitwidth: int = 64) -> None:
         from xdsl.dialects import arith, builtin
         from xdsl.dialects.builtin import ModuleOp
         from xdsl.interpreter import Interpreter
@@ -112,7 +112,7 @@ class Impl:
         from xdsl.utils.test_value import create_ssa_value
 
         self.arith, self.builtin = arith, builtin
-        self.interp = Interpreter(ModuleOp([]), index_bitwidth=64)
+        self.interp = Interpreter(ModuleOp([]), index_bitwidth=index_bitwidth)  # type: ignore[arg-type]
         self.interp.register_implementations(ArithFunctions())
         self.create = create_ssa_value
         self.vals: dict[Any, Any] = {}
@@ -283,23 +283,28 @@ def run_casts(ctx: core.Ctx, impl: Impl, gen_lines: list[str], gen_expect: list[
                 if st != "ok" or not isinstance(got, int) or got % (1 << wo) != exp or not (-(1 << (wo - 1)) <= got < (1 << wo)):
                     ctx.fail(f"xdsl.interpreters.arith.ArithFunctions.run_{cname}", f"{cname}: wrong result",
                              {"op": cname, "from": wi, "to": wo, "a": a}, f"arith.{cname} i{wi}->i{wo} on {a} gave {got}; expected pattern 0x{exp:x}", got, exp)
-    for w in (1, 2, 3, 4, 8, 16, 32):
-        for direction in ("to_index", "from_index"):
-            wi, wo = (w, 64) if direction == "to_index" else (64, w)
-            op = arith.IndexCastOp(impl.val(w if direction == "to_index" else "index", 0), impl.ty("index" if direction == "to_index" else w))
-            xs = operands_for(wi, ctx.rng, wi <= 4, 12)
-            for a in xs:
-                st, got = impl.run(op, (a,))
-                ctx.ev(); ctx.count("cast.index_cast")
-                u = a % (1 << wi)
-                exp = sgn(u, wi) % (1 << wo) if wi < wo else u % (1 << wo)
-                if a < 0 or a >= (1 << (wi - 1)):
-                    ctx.nt(("icast", wi, wo, a))
-                gen_lines.append(f"ArithInterp.run_indexcast {wi} {wo} {a}")
-                gen_expect.append((f"index_cast {wi}->{wo}({a})", st, got))
-                if st != "ok" or not isinstance(got, int) or got % (1 << wo) != exp or not (-(1 << (wo - 1)) <= got < (1 << wo)):
-                    ctx.fail("xdsl.interpreters.arith.ArithFunctions.run_indexcast", "index_cast: wrong result",
-                             {"op": "index_cast", "from": wi, "to": wo, "a": a}, f"arith.index_cast {wi}->{wo} bits on {a} gave {got}; expected pattern 0x{exp:x}", got, exp)
+    # index_cast for both supported index widths, including source/result types wider than index
+    for iw, im in ((64, impl), (32, Impl(index_bitwidth=32))):
+        for w in (1, 2, 3, 4, 8, 16, 32, 64, 128):
+            if w == iw:
+                continue
+            for direction in ("to_index", "from_index"):
+                wi, wo = (w, iw) if direction == "to_index" else (iw, w)
+                op = arith.IndexCastOp(im.val(w if direction == "to_index" else "index", 0), im.ty("index" if direction == "to_index" else w))
+                xs = operands_for(wi, ctx.rng, wi <= 4, 12)
+                for a in xs:
+                    st, got = im.run(op, (a,))
+                    ctx.ev(); ctx.count(f"cast.index_cast.index{iw}")
+                    u = a % (1 << wi)
+                    exp = sgn(u, wi) % (1 << wo) if wi < wo else u % (1 << wo)
+                    if a < 0 or a >= (1 << (wi - 1)):
+                        ctx.nt(("icast", iw, wi, wo, a))
+                    gen_lines.append(f"ArithInterp.run_indexcast {wi} {wo} {a}")
+                    gen_expect.append((f"index_cast {wi}->{wo}({a})", st, got))
+                    if st != "ok" or not isinstance(got, int) or got % (1 << wo) != exp or not (-(1 << (wo - 1)) <= got < (1 << wo)):
+                        ctx.fail("xdsl.interpreters.arith.ArithFunctions.run_indexcast", "index_cast: wrong result",
+                                 {"op": "index_cast", "index_bitwidth": iw, "from": wi, "to": wo, "a": a},
+                                 f"arith.index_cast {wi}->{wo} bits (index = {iw} bits) on {a} gave {got}; expected pattern 0x{exp:x}", got, exp)
 
 
 # ---------------------------------------------------------------------------------------------
